@@ -469,7 +469,7 @@ pub fn mention_generated_vftable(rng: &mut Rng, p: &mut Project) -> bool {
     }
     let t = *rng.pick(&owners);
     let tm = p.items[t].module;
-    let vname = format!("{}Vftable", p.items[t].name);
+    let vname = crate::inventory::vftable_name(&p.items[t].name);
     let nslots = p.items[t].vslots.as_ref().map(|v| v.len()).unwrap_or(0);
     // Where the mention lives: T's own module, or another one that imports the name.
     let m = if p.modules.len() > 1 && rng.chance(1, 2) {
@@ -1079,7 +1079,7 @@ pub fn user_defined_vftable_name(rng: &mut Rng, p: &mut Project) -> bool {
     }
     let t = *rng.pick(&owners);
     let m = p.items[t].module;
-    let vname = format!("{}Vftable", p.items[t].name);
+    let vname = crate::inventory::vftable_name(&p.items[t].name);
     let idx = p.items.len();
     let n = rng.range(1, 9);
     // Sometimes the user's type is, once resolved, indistinguishable from what pyxis would
